@@ -164,7 +164,7 @@ def main(chk):
     for v in ["", "1", "1, 2", "1, k1: 3", "*[1, 2], k2: 4", "1, **{k1: 5}"]:
         cases.append(("method_binding", "o := {tag: 9, m: {|self, a, b, k1: 10, k2: 20| [self.tag, a, b, k1, k2, \\0, \\_, \\_.keys, \\_.values]}}\no.m(%s).p\n" % v))
     g = ScopeGen(chk.rng)
-    n = 400 if chk.tier == "quick" else 4000
+    n = 400 if chk.tier == "quick" else 12000
     for _ in range(n):
         stmts = ["x := 1", "y := 2"] + g.body(["x", "y"], [], chk.rng.randint(1, 3), chk.rng.randint(3, 7))
         cases.append(("scope_random", "\n".join(stmts) + "\n"))
